@@ -262,10 +262,10 @@ Proof.
   destruct (parse_dec_or_hex lit); [intros [= <- <-]; auto|].
   destruct (parse_float lit); [intros [= <- <-]; auto|].
   destruct (parse_bool lit); [intros [= <- <-]; auto|].
-  destruct second as [[]|]; try (intros [= <- <-]; auto; fail);
-    destruct third as [[]|]; try (intros [= <- <-]; auto; fail).
-  - destruct (parse_float (lit ++ 43%N :: s)); intros [= <- <-]; [right|left]; eauto 8.
-  - destruct (parse_float (lit ++ 45%N :: s)); intros [= <- <-]; [right|left]; eauto 8.
+  destruct second as [[tk2|lit2| | | | | | | | | | | | | ]|]; try (intros [= <- <-]; auto; fail);
+    destruct third as [[tk3|lit3| | | | | | | | | | | | | ]|]; try (intros [= <- <-]; auto; fail).
+  - destruct (parse_float (lit ++ 43%N :: lit3)); intros [= <- <-]; [right|left]; eauto 8.
+  - destruct (parse_float (lit ++ 45%N :: lit3)); intros [= <- <-]; [right|left]; eauto 8.
 Qed.
 
 Lemma ptt_cons (first : ptoken) (rest : list ptoken) :
@@ -288,13 +288,13 @@ Proof.
     end).
   { intros plain assign. unfold pstep_simple.
     destruct rest as [|x r]; [reflexivity|]. destruct x; reflexivity. }
-  destruct first; cbn [partial_tokens_to_tokens pstep]; try apply Hsimple.
+  destruct first as [tk|lit| | | | | | | | | | | | | ]; cbn [partial_tokens_to_tokens pstep]; try apply Hsimple.
   - reflexivity.
   - (* Literal *)
     change (match rest with x :: _ => Some x | [] => None end) with (hd_error rest).
     change (match (match rest with _ :: r => r | [] => [] end) with x :: _ => Some x | [] => None end)
       with (hd_error (tl rest)).
-    destruct (literal_to_token s (hd_error rest) (hd_error (tl rest))) as [t n] eqn:E.
+    destruct (literal_to_token lit (hd_error rest) (hd_error (tl rest))) as [t n] eqn:E.
     destruct (literal_cut _ _ _ _ _ E) as [->|[-> (sg & x & H2 & _ & H3)]]; [reflexivity|].
     destruct rest as [|a [|b r]]; try discriminate. reflexivity.
   - (* Whitespace *) cbn [skipn app]. symmetry. apply bind_ret.
@@ -309,10 +309,10 @@ Qed.
 (* how far a step looks and cuts *)
 Lemma pstep_drop_le first second third ts k : pstep first second third = PS_emit ts k -> (k <= 2)%nat.
 Proof.
-  destruct first; cbn [pstep]; unfold pstep_simple, pstep_double;
+  destruct first as [tk|lit| | | | | | | | | | | | | ]; cbn [pstep]; unfold pstep_simple, pstep_double;
     try (destruct (is_PEq second); intros [= <- <-]; lia);
     try (intros [= <- <-]; lia).
-  - destruct (literal_to_token s second third) as [t n]. intros [= <- <-]. destruct (Nat.eqb n 3); lia.
+  - destruct (literal_to_token lit second third) as [t n]. intros [= <- <-]. destruct (Nat.eqb n 3); lia.
   - destruct second as [[]|]; try discriminate. destruct (is_PEq third); intros [= <- <-]; lia.
   - destruct second as [[]|]; try discriminate. destruct (is_PEq third); intros [= <- <-]; lia.
 Qed.
@@ -321,9 +321,9 @@ Qed.
 Lemma pstep_drop_ok first rest ts k :
   pstep first (hd_error rest) (hd_error (tl rest)) = PS_emit ts k -> (k <= length rest)%nat.
 Proof.
-  destruct first; cbn [pstep]; unfold pstep_simple, pstep_double.
+  destruct first as [tk|lit| | | | | | | | | | | | | ]; cbn [pstep]; unfold pstep_simple, pstep_double.
   all: try (destruct rest as [|x r]; [|destruct x]; cbn [hd_error is_PEq]; intros [= <- <-]; cbn [length]; lia).
-  - destruct (literal_to_token s (hd_error rest) (hd_error (tl rest))) as [t n] eqn:E.
+  - destruct (literal_to_token lit (hd_error rest) (hd_error (tl rest))) as [t n] eqn:E.
     intros [= <- <-].
     destruct (literal_cut _ _ _ _ _ E) as [->|[-> (sg & x & H2 & _ & H3)]]; cbn [Nat.eqb]; [lia|].
     destruct rest as [|a [|b r]]; try discriminate. cbn [length]. lia.
@@ -338,9 +338,9 @@ Lemma pstep_ws_second first third :
   pstep first (Some PWhitespace) third = pstep first (Some PWhitespace) None /\
   match pstep first (Some PWhitespace) None with PS_emit _ k => k = 0%nat | PS_err _ => True end.
 Proof.
-  destruct first; cbn [pstep pstep_simple pstep_double is_PEq]; auto.
+  destruct first as [tk|lit| | | | | | | | | | | | | ]; cbn [pstep pstep_simple pstep_double is_PEq]; auto.
   unfold literal_to_token.
-  destruct (parse_dec_or_hex s); [auto|]. destruct (parse_float s); [auto|]. destruct (parse_bool s); auto.
+  destruct (parse_dec_or_hex lit); [auto|]. destruct (parse_float lit); [auto|]. destruct (parse_bool lit); auto.
 Qed.
 
 (* strong induction on the length of a list *)
